@@ -7,7 +7,7 @@
 
    C01's encoder (raw_box false / encode_seq false) applied to this tree is the model of InitSegment.Encode;
    C01's decoder (decode_file) applied to those bytes is the model of DecodeFile's box loop.
-   Boxes C01 has no leaf for (hvcC, esds, stpp, wvtt, dac3, dec3) are MUnknown boxes carrying the payload bytes of the
+   Boxes C01 has no leaf for (esds, stpp, wvtt, dac3, dec3) are MUnknown boxes carrying the payload bytes of the
    C19 models (C19RecModel.hvcrec_encode, C19Model.stpp_payload, ...): C01's decoder returns them as UnknownBox,
    which is NOT what Go's typed decoders do, so equality of the decoded tree says for these boxes only that
    the bytes come back. *)
@@ -32,7 +32,6 @@ Definition ftyp_box : mbox := leafb (LFtyp n_ftyp (BS "cmfc" ++ [0; 0; 0; 0] ++ 
 Definition mvhd_box (next : N) : mbox := leafb (LMvhd 0 0 0 0 90000 0 65536 256 next).
 (* CreateTrex: DefaultSampleDescriptionIndex 1 *)
 Definition trex_box (id : N) : mbox := leafb (LTrex 0 0 id 1 0 0 0).
-Definition n_hvcC := BS "hvcC".
 Definition n_stpp := BS "stpp".
 Definition n_wvtt := BS "wvtt".
 Definition n_vttC := BS "vttC".
@@ -81,9 +80,12 @@ Definition entry_box (e : sentry) : option mbox :=
                  [leafb (LAvcC (ar_profile r) (ar_compat r) (ar_level r) (ar_sps r) (ar_pps r)
                                (ar_chroma r) (ar_bdl r) (ar_bdc r) (ar_nspsext r) (ar_notrail r))])
   | CfgHvcC h =>
+      (* C01 has a typed hvcC leaf (version 1 and length size 3 are constants of every accepted record) *)
       match hvcrec_of h with
       | Some r => Some (preb (LVisual (se_name e) (se_dref e) (se_a e) (se_b e) 4718592 4718592 1 compressor_name)
-                             [unkb n_hvcC (hvcrec_encode r)])
+                             [leafb (LHvcC (hr_space r) (hr_tier r) (hr_pidc r) (hr_compat r) (hr_constraint r) (hr_level r)
+                                           (hr_minspat r) (hr_par r) (hr_chroma r) (hr_bdl r) (hr_bdc r) (hr_avgfr r)
+                                           (hr_cfr r) (hr_ntl r) (hr_tin r) (hr_arrays r))])
       | None => None
       end
   | CfgEsds asc => Some (preb (LAudio (se_name e) (se_dref e) (se_a e) (se_b e) (se_c e)) [unkb n_esds (esds_payload asc)])
